@@ -60,6 +60,8 @@ func vwCtx() (*shared.PlannerContext, int64, int64) {
 	from := vrt.Int64("from-seconds")
 	to := vrt.Int64("to-seconds")
 	vrt.Assume(from >= 1000000000) // 2001..2096: 10-digit seconds
+	vrt.Assume(from < 4000000000)  // implied; stated for the engine's interval reasoning
+	vrt.Assume(to >= 1000000000)
 	vrt.Assume(to < 4000000000)
 	vrt.Assume(from <= to)
 	ctx := &shared.PlannerContext{
